@@ -240,7 +240,7 @@ class Gen:
                 items.append(self.pict())
             elif c < 0.93 and self.p(self.k.forms * 4):
                 items.append(self.form_field())
-            elif c < 0.97 and allow_nested and self.depth < 2 and self.p(self.k.nested_pars * 3) and (
+            elif c < 0.97 and allow_nested and self.depth < 3 and self.p(self.k.nested_pars * 3 if self.depth == 0 else 0.9) and (
                 self.in_cell == 0 or self.p(self.k.nested_par_in_table)
             ):
                 if self.in_cell:
@@ -345,7 +345,9 @@ class Gen:
     def textbox(self):
         self.feat("nested_par")
         self.depth += 1
-        content = self.E("w:txbxContent", {}, *[self.paragraph(simple=True) for _ in range(self.r.randint(1, 2))])
+        # paragraphs of a text box may again hold a text box (up to three levels)
+        content = self.E("w:txbxContent", {}, *[self.paragraph(simple=True, allow_nested=self.depth < 3 and self.p(0.5))
+                                                  for _ in range(self.r.randint(1, 2))])
         self.depth -= 1
         return self.E("w:pict", {}, self.E("v:shape", {"id": "tb"}, self.E("v:textbox", {}, content)))
 
@@ -441,7 +443,9 @@ class Gen:
             pr.insert(self.r.randint(0, len(pr)), etree.Comment("x"))
         return pr, heading
 
-    def paragraph(self, simple=False):
+    def paragraph(self, simple=False, allow_nested=None):
+        if allow_nested is None:
+            allow_nested = not simple
         p = self.E("w:p", {"w:rsidR": "00112233"} if self.p(0.2) else {})
         pr, heading = self.ppr(simple)
         if pr is not None:
@@ -467,7 +471,7 @@ class Gen:
                 elif self.p(0.5):
                     pr_ = self.rpr()
                     base_rpr = pr_ if pr_ is None else etree.fromstring(etree.tostring(pr_))
-                r = self.run(rpr=pr_, allow_nested=not simple) if pr_ is not None else self.run(allow_nested=not simple)
+                r = self.run(rpr=pr_, allow_nested=allow_nested) if pr_ is not None else self.run(allow_nested=allow_nested)
                 p.append(r)
             elif c < 0.5 + self.k.links * 0.6:
                 p.append(self.hyperlink())
@@ -512,7 +516,7 @@ class Gen:
                 p.append(self.E("w14:unknownInline", {}, self.run(allow_nested=False)))
                 self.feat("unknown_inline")
             else:
-                p.append(self.run(allow_nested=not simple))
+                p.append(self.run(allow_nested=allow_nested))
         # close comment ranges left open, here or in a later paragraph
         self._pending_comment_ends = getattr(self, "_pending_comment_ends", []) + open_comments
         if self._pending_comment_ends and self.p(0.6) and self.cur_part == "document" and (
